@@ -31,7 +31,13 @@ type srcReplace struct {
 
 // rewriteForNative returns virtual path -> rewritten temp file for the replaced functions defined in the harness
 // package (dir) and, through exported hook variables, in other packages of the repository module.
-func rewriteForNative(tmp, dir, pkgPath string, replaces map[string]string) (map[string]string, []string) {
+func rewriteForNative(tmp, dir, pkgPath string, replaces map[string]string, src map[string][]byte, xImports, xAssigns []string) (map[string]string, []string) {
+	srcOf := func(f string) interface{} {
+		if b, ok := src[f]; ok {
+			return b
+		}
+		return nil
+	}
 	var todo []srcReplace
 	var skipped []string
 	other := map[string][]srcReplace{} // package path -> replacements
@@ -61,7 +67,7 @@ func rewriteForNative(tmp, dir, pkgPath string, replaces map[string]string) (map
 		opkgs = append(opkgs, op)
 	}
 	sort.Strings(opkgs)
-	var hookImports, hookAssigns []string
+	hookImports, hookAssigns := append([]string(nil), xImports...), append([]string(nil), xAssigns...)
 	for _, op := range opkgs {
 		odir := filepath.Join(repoRoot, strings.TrimPrefix(op, repoModule+"/"))
 		nImp++
@@ -73,7 +79,7 @@ func rewriteForNative(tmp, dir, pkgPath string, replaces map[string]string) (map
 				continue
 			}
 			fset := token.NewFileSet()
-			af, err := parser.ParseFile(fset, f, nil, parser.ParseComments)
+			af, err := parser.ParseFile(fset, f, srcOf(f), parser.ParseComments)
 			if err != nil {
 				continue
 			}
@@ -128,6 +134,18 @@ func rewriteForNative(tmp, dir, pkgPath string, replaces map[string]string) (map
 		os.WriteFile(hf, []byte(hookSrc.String()), 0644)
 		out[filepath.Join(dir, "zz_verif_hooks.go")] = hf
 	}
+	defer func() {
+		// sources changed by the schedule instrumentation only
+		i := 0
+		for f, b := range src {
+			if _, done := out[f]; !done {
+				i++
+				tf := filepath.Join(tmp, fmt.Sprintf("sched%d_%s", i, filepath.Base(f)))
+				os.WriteFile(tf, b, 0644)
+				out[f] = tf
+			}
+		}
+	}()
 	if len(todo) == 0 {
 		return out, skipped
 	}
@@ -137,7 +155,7 @@ func rewriteForNative(tmp, dir, pkgPath string, replaces map[string]string) (map
 			continue
 		}
 		fset := token.NewFileSet()
-		af, err := parser.ParseFile(fset, f, nil, parser.ParseComments)
+		af, err := parser.ParseFile(fset, f, srcOf(f), parser.ParseComments)
 		if err != nil {
 			continue
 		}
